@@ -50,7 +50,7 @@ type rtPat struct {
 	optSlash []bool
 }
 
-var rtLits = []string{"a", "b", "api", "a.b", "v1.0", "users", "x", "blog", "u", "a-b", "c_d", "9", "café", "文档", "résumé.pdf", "v1.0é"}
+var rtLits = []string{"a", "b", "api", "a.b", "v1.0", "users", "x", "blog", "u", "a-b", "c_d", "9", "café", "文档", "résumé.pdf", "v1.0é", "Users", "API", "v1:beta", "~u", "a,b=c", "x@y", "a!"}
 
 func (g *rtG) seg(allowVar bool) []rtPart {
 	r := g.r
@@ -246,6 +246,14 @@ func (g *rtG) table(n int) *rtTable {
 	seenStatic := map[string]bool{}
 	for i := 0; i < n; i++ {
 		ms := g.methods()
+		if r.Chance(1, 20) && !seenStatic["root"] { // the root route
+			seenStatic["root"] = true
+			t.defs = append(t.defs, L(SL(ms), S(r.Pick([]string{"/", "", " / "})), B(false)))
+			t.pats = append(t.pats, nil)
+			t.paths = append(t.paths, "/")
+			t.meths = append(t.meths, ms)
+			continue
+		}
 		if r.Chance(1, 3) { // static route
 			var segs []string
 			for k := r.Range(1, 3); k > 0; k-- {
@@ -270,7 +278,11 @@ func (g *rtG) table(n int) *rtTable {
 			t.paths = append(t.paths, p)
 		} else {
 			pat := g.pattern()
-			t.defs = append(t.defs, L(SL(ms), S(pat.text()), B(false)))
+			regText := pat.text()
+			if r.Chance(1, 8) { // other spellings of the same pattern at registration (they normalise to it, except "/" under strict)
+				regText = r.Pick([]string{strings.TrimPrefix(regText, "/"), " " + regText + " ", "//" + strings.TrimPrefix(regText, "/"), regText + "/"})
+			}
+			t.defs = append(t.defs, L(SL(ms), S(regText), B(false)))
 			t.pats = append(t.pats, pat)
 			t.paths = append(t.paths, pat.text())
 			if twin := g.sameShape(pat); twin != nil && r.Chance(1, 5) {
@@ -361,7 +373,11 @@ func (g *rtG) crowded() *rtTable {
 	t := &rtTable{}
 	first := g.pool[0]
 	m := []string{r.Pick([]string{"GET", "GET", "POST"})}
-	for k := r.Range(5, 9); k > 0; k-- {
+	size := r.Range(5, 9)
+	if r.Chance(1, 4) { // larger buckets (thresholds of 12, 16, 32 ... routes)
+		size = r.Pick2([]int{12, 13, 16, 17, 33, 64})
+	}
+	for k := size; k > 0; k-- {
 		pat := g.pattern()
 		pat.req[0] = []rtPart{{lit: first}}
 		if len(pat.req) == 1 {
@@ -398,6 +414,7 @@ func c01Gen(r *Rng, tier string, i int) Sx {
 			qs[k].List[0] = A("m")
 		}
 	}
+	opts, qs = rtGroup(r, opts, qs)
 	return L(A("rt"), LS(opts), LS(t.defs), LS(qs))
 }
 
@@ -433,7 +450,27 @@ func c02Gen(r *Rng, tier string, i int) Sx {
 			qs = append(qs, L(A(r.Pick([]string{"m", "s"})), S("GET"), S(a)), L(A(r.Pick([]string{"m", "s"})), S("GET"), S(b)))
 		}
 	}
+	opts, qs = rtGroup(r, opts, qs)
 	return L(A("rt"), LS(opts), LS(t.defs), LS(qs))
+}
+
+// rtGroup: in some cases the whole table is registered inside r.Group(prefix, ...); the probes then carry the prefix
+func rtGroup(r *Rng, opts, qs []Sx) ([]Sx, []Sx) {
+	if !r.Chance(1, 7) {
+		return opts, qs
+	}
+	spelled := r.Pick([]string{"/api/v1", "/g", "adm/", "/G.x"})
+	norm := "/" + strings.Trim(spelled, "/")
+	for k, q := range qs {
+		if q.Head() == "m" || q.Head() == "s" {
+			p := q.List[2].Str()
+			if r.Chance(9, 10) {
+				p = norm + p
+			}
+			qs[k] = L(q.List[0], q.List[1], S(p))
+		}
+	}
+	return append(opts, L(A("group"), S(spelled))), qs
 }
 
 // rtGvar: a global path variable of the application's own (SetGlobalVar after the router exists, before the route is added):
